@@ -806,6 +806,84 @@ func runC11(c *Collector, r *Rng, thorough bool) {
 					c.Fail("C11/tampered-accepted", fmt.Sprintf("COSE_Sign verified although the protected header of signer %d was changed after signing", j), rep)
 				}
 			}
+			// the same after the signed message has been encoded once (sent), with the change made to the object
+			// that was encoded: body or any signer, every position
+			for j := -1; j < n; j++ {
+				t := &cose.SignMessage{Headers: cloneHeaders(m.Headers), Payload: payload}
+				for _, sg := range m.Signatures {
+					t.Signatures = append(t.Signatures, &cose.Signature{Headers: cloneHeaders(sg.Headers), Signature: sg.Signature})
+				}
+				if t.Verify(ext, verifiers...) != nil {
+					continue
+				}
+				if _, err := t.MarshalCBOR(); err != nil {
+					continue
+				}
+				for _, sgn := range t.Signatures {
+					sgn.MarshalCBOR()
+				}
+				c.Eval("tamper-after-encoding", fmt.Sprint(n, j, k.alg), true)
+				if j < 0 {
+					if t.Headers.Protected == nil {
+						t.Headers.Protected = cose.ProtectedHeader{}
+					}
+					t.Headers.Protected[int64(4)] = []byte("another-body-kid")
+				} else {
+					t.Signatures[j].Headers.Protected[int64(4)] = []byte("someone-else")
+				}
+				if err := t.Verify(ext, verifiers...); err == nil {
+					c.Fail("C11/tampered-accepted", fmt.Sprintf("COSE_Sign verified although a protected header (position %d, -1 = body) was changed after the message had been signed and encoded", j), rep)
+				}
+			}
+		}
+	}
+	c11MalformedVerifierKey(c, r)
+}
+
+// c11MalformedVerifierKey: a verifier built from a malformed EdDSA public key (wrong length: NewVerifier looks at
+// the Go type only) stands at one position, over a garbage signature: the whole verification must not succeed.
+func c11MalformedVerifierKey(c *Collector, r *Rng) {
+	keys := realKeySet(r)
+	good := keys[0]
+	for _, klen := range []int{0, 1, 31, 33, 64} {
+		bad, err := cose.NewVerifier(cose.AlgorithmEdDSA, ed25519.PublicKey(r.Bytes(klen)))
+		if err != nil {
+			continue
+		}
+		for n := 1; n <= 3; n++ {
+			for pos := 0; pos < n; pos++ {
+				for _, decoded := range []bool{false, true} {
+					m := &cose.SignMessage{Headers: cose.Headers{Protected: cose.ProtectedHeader{}}, Payload: []byte("payload")}
+					var signers []cose.Signer
+					var verifiers []cose.Verifier
+					for j := 0; j < n; j++ {
+						m.Signatures = append(m.Signatures, &cose.Signature{Headers: cose.Headers{Protected: cose.ProtectedHeader{cose.HeaderLabelAlgorithm: good.alg}}})
+						signers = append(signers, good.signer())
+						verifiers = append(verifiers, good.verifier())
+					}
+					if m.Sign(r, nil, signers...) != nil {
+						continue
+					}
+					m.Signatures[pos] = &cose.Signature{Headers: cose.Headers{Protected: cose.ProtectedHeader{cose.HeaderLabelAlgorithm: cose.AlgorithmEdDSA}}, Signature: r.Bytes(64)}
+					verifiers[pos] = bad
+					if decoded {
+						b, err := m.MarshalCBOR()
+						if err != nil {
+							continue
+						}
+						m = &cose.SignMessage{}
+						if m.UnmarshalCBOR(b) != nil {
+							continue
+						}
+					}
+					var verr error
+					panicked, _ := protect(func() { verr = m.Verify(nil, verifiers...) })
+					c.Eval("malformed-verifier-key", fmt.Sprint(klen, n, pos, decoded), true)
+					if !panicked && verr == nil {
+						c.Fail("C11/garbage-accepted", fmt.Sprintf("COSE_Sign with %d signatures verified although signature %d is random bytes (its verifier holds a %d-byte EdDSA key)", n, pos, klen), map[string]any{"n": n, "position": pos, "key_len": klen, "decoded": decoded})
+					}
+				}
+			}
 		}
 	}
 }
@@ -875,6 +953,8 @@ func runC20(c *Collector, r *Rng, thorough bool) {
 			if bad(o) {
 				if err == nil {
 					c.Fail("C20/error-swallowed", "signer failed but Sign returned nil", rep)
+				} else if !errors.Is(err, errScripted) {
+					c.Fail("C20/error-replaced", fmt.Sprintf("the signer failed with %q but Sign returned %q", errScripted, err), rep)
 				}
 				if len(m.Signature) != 0 {
 					c.Fail("C20/signature-stored-on-error", fmt.Sprintf("signer failed but Signature = %x was stored", m.Signature), rep)
@@ -898,6 +978,8 @@ func runC20(c *Collector, r *Rng, thorough bool) {
 			addCase(c, "helper/"+o.name, op3, obs3, true)
 			if bad(o) && (herr == nil || out3 != nil) {
 				c.Fail("C20/helper-returned-bytes", fmt.Sprintf("Sign1 helper returned bytes=%x err=%v for a failing signer", out3, herr), rep)
+			} else if bad(o) && !errors.Is(herr, errScripted) {
+				c.Fail("C20/error-replaced", fmt.Sprintf("the signer failed with %q but the Sign1 helper returned %q", errScripted, herr), rep)
 			}
 			if emptySig(o) && herr == nil {
 				c.Fail("C20/helper-empty-signature", fmt.Sprintf("Sign1 helper returned a message with an empty signature: %x", out3), rep)
@@ -916,6 +998,8 @@ func runC20(c *Collector, r *Rng, thorough bool) {
 				addCase(c, "hashenvelope/"+o.name, op, obs, true)
 				if (bad(o) || emptySig(o)) && (err == nil || out != nil) {
 					c.Fail("C20/hashenvelope-returned-bytes", fmt.Sprintf("SignHashEnvelope returned bytes=%x err=%v", out, err), rep)
+				} else if bad(o) && !errors.Is(err, errScripted) {
+					c.Fail("C20/error-replaced", fmt.Sprintf("the signer failed with %q but SignHashEnvelope returned %q", errScripted, err), rep)
 				}
 			}
 		}
@@ -931,6 +1015,8 @@ func runC20(c *Collector, r *Rng, thorough bool) {
 				addCase(c, "countersign/"+o.name, op, obs, true)
 				if bad(o) && (err == nil || len(cs.Signature) != 0) {
 					c.Fail("C20/countersign-stored-on-error", fmt.Sprintf("countersigner failed: err=%v stored=%x", err, cs.Signature), rep)
+				} else if bad(o) && !errors.Is(err, errScripted) {
+					c.Fail("C20/error-replaced", fmt.Sprintf("the countersigner failed with %q but Countersignature.Sign returned %q", errScripted, err), rep)
 				}
 				op2, obs2, out, merr, _ := execEncSignature((*cose.Signature)(cs))
 				addCase(c, "countersign-then-marshal/"+o.name, op2, obs2, true)
@@ -1126,6 +1212,97 @@ func runC20(c *Collector, r *Rng, thorough bool) {
 			}
 		}
 	}
+	// ---- a key (HSM / KMS adapter around a real key) that fails the first time it is asked and would succeed the
+	// second time, and an entropy source whose first read fails: the failure is the caller's to see; one signing call
+	// asks the key once ----
+	{
+		kr1 := NewRng(4343)
+		rk1, _ := rsa.GenerateKey(kr1, 2048)
+		ek1, _ := ecdsa.GenerateKey(elliptic.P256(), kr1)
+		_, ed1, _ := ed25519.GenerateKey(kr1)
+		for _, kc := range []struct {
+			name string
+			alg  cose.Algorithm
+			key  crypto.Signer
+		}{{"PS256", cose.AlgorithmPS256, rk1}, {"PS384", cose.AlgorithmPS384, rk1}, {"PS512", cose.AlgorithmPS512, rk1}, {"ES256", cose.AlgorithmES256, ek1}, {"EdDSA", cose.AlgorithmEdDSA, ed1}} {
+			for _, how := range []string{"key-fails-once", "entropy-fails-once"} {
+				fo := &failOnceSigner{real: kc.key, fail: how == "key-fails-once"}
+				var signer cose.Signer
+				var err error
+				if how == "key-fails-once" {
+					signer, err = cose.NewSigner(kc.alg, fo)
+				} else {
+					signer, err = cose.NewSigner(kc.alg, kc.key)
+				}
+				if err != nil {
+					continue
+				}
+				rep := map[string]any{"alg": kc.name, "fault": how}
+				entropy := func() io.Reader {
+					if how == "entropy-fails-once" {
+						return &failOnceReader{r: r}
+					}
+					return r
+				}
+				calls := []struct {
+					name string
+					run  func() (bool, error) // produced something usable?, error
+				}{
+					{"Sign1Message.Sign", func() (bool, error) {
+						m := &cose.Sign1Message{Headers: hdr(kc.alg), Payload: []byte("p")}
+						e := m.Sign(entropy(), nil, signer)
+						_, me := m.MarshalCBOR()
+						return len(m.Signature) > 0 || me == nil, e
+					}},
+					{"Sign1", func() (bool, error) {
+						out, e := cose.Sign1(entropy(), signer, hdr(kc.alg), []byte("p"), nil)
+						return out != nil, e
+					}},
+					{"SignMessage.Sign", func() (bool, error) {
+						sm := &cose.SignMessage{Headers: cose.Headers{}, Payload: []byte("p"), Signatures: []*cose.Signature{{Headers: hdr(kc.alg)}}}
+						e := sm.Sign(entropy(), nil, signer)
+						_, me := sm.MarshalCBOR()
+						return len(sm.Signatures[0].Signature) > 0 || me == nil, e
+					}},
+					{"Countersignature.Sign", func() (bool, error) {
+						cs := &cose.Countersignature{Headers: hdr(kc.alg)}
+						e := cs.Sign(entropy(), signer, &cose.Sign1Message{Headers: hdr(kc.alg), Payload: []byte("p"), Signature: []byte{1}}, nil)
+						return len(cs.Signature) > 0, e
+					}},
+					{"Countersign0", func() (bool, error) {
+						out, e := cose.Countersign0(entropy(), signer, &cose.Sign1Message{Headers: hdr(kc.alg), Payload: []byte("p"), Signature: []byte{1}}, nil)
+						return len(out) > 0, e
+					}},
+					{"SignHashEnvelope", func() (bool, error) {
+						out, e := cose.SignHashEnvelope(entropy(), signer, hdr(kc.alg), cose.HashEnvelopePayload{HashAlgorithm: cose.AlgorithmSHA256, HashValue: make([]byte, 32)})
+						return out != nil, e
+					}},
+				}
+				for _, cl := range calls {
+					fo.calls = 0
+					var usable bool
+					var cerr error
+					if p, _ := protect(func() { usable, cerr = cl.run() }); p {
+						c.Fail("C20/panic", cl.name+" panicked on a key that fails once", rep)
+						continue
+					}
+					if how == "entropy-fails-once" && (kc.name == "EdDSA") {
+						continue // Ed25519 signing is deterministic: the entropy source is not read
+					}
+					c.Eval("fails-once/"+how+"/"+kc.name, cl.name, true)
+					if how == "key-fails-once" {
+						if cerr == nil || usable {
+							c.Fail("C20/first-failure-swallowed", fmt.Sprintf("%s: the key failed when it was first asked, the call returned err=%v and a usable result=%v (the key was asked %d times)", cl.name, cerr, usable, fo.calls), rep)
+						} else if fo.calls != 1 {
+							c.Fail("C20/key-asked-again-after-failure", fmt.Sprintf("%s: the key was asked %d times in one signing call after it had failed", cl.name, fo.calls), rep)
+						}
+					} else if (cerr == nil) == (!usable) {
+						c.Fail("C20/first-failure-swallowed", fmt.Sprintf("%s: inconsistent result with an entropy source that fails once: err=%v usable=%v", cl.name, cerr, usable), rep)
+					}
+				}
+			}
+		}
+	}
 	// ---- entropy failures with real keys ----
 	kr := NewRng(99)
 	ek, _ := ecdsa.GenerateKey(elliptic.P256(), kr)
@@ -1240,6 +1417,36 @@ func (s *slowSigner) Sign(_ io.Reader, content []byte) ([]byte, error) {
 	}
 	s.seen = append([]byte{}, content...)
 	return []byte{1, 2, 3}, nil
+}
+
+// failOnceSigner: a crypto.Signer around a real key whose odd-numbered Sign calls fail
+type failOnceSigner struct {
+	real  crypto.Signer
+	fail  bool
+	calls int
+}
+
+func (f *failOnceSigner) Public() crypto.PublicKey { return f.real.Public() }
+func (f *failOnceSigner) Sign(rnd io.Reader, digest []byte, opts crypto.SignerOpts) ([]byte, error) {
+	f.calls++
+	if f.fail && f.calls%2 == 1 {
+		return nil, errScripted
+	}
+	return f.real.Sign(rnd, digest, opts)
+}
+
+// failOnceReader: an entropy source whose first Read fails
+type failOnceReader struct {
+	r     io.Reader
+	reads int
+}
+
+func (f *failOnceReader) Read(p []byte) (int, error) {
+	f.reads++
+	if f.reads == 1 {
+		return 0, errScripted
+	}
+	return f.r.Read(p)
 }
 
 // faultyCryptoSigner: a crypto.Signer whose Sign fails in the scripted way
